@@ -26,6 +26,11 @@ func liveHeap() uint64 {
 	return ms.HeapAlloc
 }
 
+// c17MaxKeyBytes: keys longer than this are left out of the heap measurements (the byte
+// thresholds below are absolute; a collation tree keeps one scratch buffer as large as the
+// largest key it was ever given, which is observed and not judged).
+const c17MaxKeyBytes = 300
+
 const (
 	c17Slack      = 256 << 10 // bytes
 	c17PerOpMilli = 500       // 0.5 B per operation
@@ -52,7 +57,7 @@ func c17Kind[K any](res *ev.Result, unit string, k *kinds.Kind[K], seed uint64, 
 				break
 			}
 			id := k.ID(c)
-			if seen[id] {
+			if seen[id] || len(id) > c17MaxKeyBytes {
 				continue
 			}
 			if ok, _ := k.Storable(scratchModel, c); !ok {
@@ -79,7 +84,7 @@ func c17Kind[K any](res *ev.Result, unit string, k *kinds.Kind[K], seed uint64, 
 	for tries := 0; len(fresh) < 4096 && tries < 40; tries++ {
 		for _, c := range k.Pool(r, 600) {
 			id := k.ID(c)
-			if seen[id] {
+			if seen[id] || len(id) > c17MaxKeyBytes {
 				continue
 			}
 			if ok, _ := k.Storable(scratchModel, c); !ok {
